@@ -52,10 +52,12 @@ class Gen(object):
         self.exc = cfg.get("exc", DEFAULT_EXC)
         self.spawn_kinds = cfg.get("spawn_kinds", [])
         # weights: msg, act, tb, succ, raise, pause, spawn, reenter, plain_gen
-        self.w = list(cfg.get("w_ops", [6, 6, 1, 2, 1, 0, 0])) + [0, 0]
-        self.w = self.w[:9]
+        self.w = list(cfg.get("w_ops", [6, 6, 1, 2, 1, 0, 0])) + [0, 0, 0]
+        self.w = self.w[:10]
         self.w[7] = cfg.get("w_reenter", 0)
         self.w[8] = cfg.get("w_plain_gen", 0)
+        self.w[9] = cfg.get("w_destop", 0)
+        self.n_dests = 0
         self.p_more = cfg.get("p_more", 0.75)
         self.p_catch = cfg.get("p_catch", 0.5)
         self.world = cfg.get("world", "seq")
@@ -66,7 +68,16 @@ class Gen(object):
         return self.nid
 
     def fields(self, names=V.FIELD_NAMES, exclude=()):
+        pb = self.cfg.get("p_bad", 0)
+        if pb:
+            return V.gen_fields_bad(self.st, names, pb, 4, exclude=("nid",) + tuple(exclude))
         return V.gen_fields(self.st, names, 4, self.vdepth, exclude=("nid",) + tuple(exclude))
+
+    def value(self):
+        pb = self.cfg.get("p_bad", 0)
+        if pb and self.st.chance(pb, "bad?"):
+            return V.gen_bad(self.st)
+        return V.gen_json(self.st, 0, self.vdepth)
 
     def body(self, depth, nopause=False, in_action=False):
         st = self.st
@@ -112,7 +123,23 @@ class Gen(object):
                             "inside": [self.plain_msg() for _ in range(st.choose(3))],
                             "suspended": [self.plain_msg() for _ in range(st.choose(3))],
                             "after": [self.plain_msg() for _ in range(st.choose(2))]})
+            elif k == 9:
+                ops.append(self.destop())
         return ops
+
+    def destop(self):
+        """Registration change between messages (C08/C12)."""
+        st = self.st
+        masks = self.cfg.get("masks", [["never"]])
+        kind = st.choose(3, "destop")
+        if kind == 0:
+            n = 1 + st.choose(2, "n-add")
+            specs = [{"mask": masks[st.choose(len(masks), "mask")], "exc": st.choose(5, "exc-kind")}
+                     for _ in range(n)]
+            return {"op": "destop", "add": specs}
+        if kind == 1:
+            return {"op": "destop", "remove": st.choose(6, "which")}
+        return {"op": "destop", "globals": V.gen_fields(st, ["g0", "g1", "g2"], 2, 1)}
 
     def plain_msg(self):
         return {"op": "msg", "nid": self.next_nid(), "api": "log_message",
@@ -127,11 +154,22 @@ class Gen(object):
             self.used_types[mtype] = TYPES[mtype]
             f = {}
             for k, _s in TYPES[mtype]["fields"]:
-                f[k] = V.gen_json(st, 0, self.vdepth)
+                f[k] = self.value()
             f.update(self.fields(exclude=tuple(f)))
-            return {"op": "msg", "nid": nid, "api": api, "mtype": mtype, "fields": f}
+            op = {"op": "msg", "nid": nid, "api": api, "mtype": mtype, "fields": f}
+            self.omit(op, f)
+            return op
         mtype = st.pick(MESSAGE_TYPES, "mtype")
         return {"op": "msg", "nid": nid, "api": api, "mtype": mtype, "fields": self.fields()}
+
+    def omit(self, op, f):
+        """Fault: a declared field is not supplied (typed ops only)."""
+        po = self.cfg.get("p_omit", 0)
+        if po and f and self.st.chance(po, "omit?"):
+            declared = [k for k in sorted(f) if k in ("k0", "k1", "x")]
+            if declared:
+                f.pop(declared[self.st.choose(len(declared))])
+                op["omitted"] = True
 
     def act(self, depth, nopause=False):
         st = self.st
@@ -144,19 +182,22 @@ class Gen(object):
             self.used_types[atype] = TYPES[atype]
             f = {}
             for k, _s in TYPES[atype]["start"]:
-                f[k] = V.gen_json(st, 0, self.vdepth)
+                f[k] = self.value()
             f.update(self.fields(exclude=tuple(f)))
             op["atype"] = atype
             op["start"] = f
             ts = {}
             for k, _s in TYPES[atype]["succ"]:
-                ts[k] = V.gen_json(st, 0, self.vdepth)
+                ts[k] = self.value()
             op["tsucc"] = ts
+            self.omit(op, f)
+            if self.cfg.get("p_omit") and ts and st.chance(self.cfg["p_omit"], "omit-succ"):
+                ts.pop(sorted(ts)[0])
         elif api == "log_call":
             op["atype"] = st.pick(ACTION_TYPES[:3], "atype")
             op["start"] = self.fields(names=V.IDENT_NAMES)
             op["include_result"] = not st.choose(3, "noresult") == 2
-            op["result"] = V.gen_json(st, 0, self.vdepth)
+            op["result"] = self.value()
             if op["start"] and st.choose(4, "inclargs") == 3:
                 names = sorted(op["start"])
                 op["include_args"] = [n for n in names if st.choose(2)] + ["nid"]
